@@ -243,7 +243,7 @@ static void runCase(long k, const CaseIn &c) {
 int main(int argc, char **argv) {
     vh::Args a = vh::parseArgs(argc, argv);
     bool thorough = (a.tier == "thorough");
-    long ncases = (thorough ? 1600 : 320) * a.scale;
+    long ncases = (thorough ? 3000 : 1500) * a.scale;
     if (a.n >= 0) ncases = a.n;
     for (long k = 0; k < ncases; ++k) {
         if (!a.want(k)) continue;
